@@ -220,16 +220,22 @@ class GaussianKDE(DensityEstimator):
         return reduce(logaddexp, generator) - log(len(samples) * sqrt(2 * pi))
 
     def locate_mode(self):
-        # if there are enough samples, use the 20% HDI to bound the search for the mode
-        if self.sample.size > 50:
-            lwr, upr = sample_hdi(self.sample, 0.2)
-        else:  # else just use the entire range of the samples
-            lwr, upr = self.sample[0], self.sample[-1]
-
+        # the estimate can have several local maxima, so first find the highest one on
+        # a grid covering the whole sample, then refine it with a bounded search
+        lwr, upr = self.sample[0], self.sample[-1]
+        n_grid = int(min(max(4 * (upr - lwr) / self.h, 16), 4096)) + 1
+        grid = linspace(lwr, upr, n_grid)
+        p_grid = self(grid)
+        i = p_grid.argmax()
+        a, b = grid[max(i - 1, 0)], grid[min(i + 1, n_grid - 1)]
+        # the search tolerance must follow the scale of the data
         result = minimize_scalar(
-            lambda x: -self(x), bounds=[lwr, upr], method="bounded"
+            lambda x: -self(x),
+            bounds=[a, b],
+            method="bounded",
+            options={"xatol": 1e-6 * self.h},
         )
-        return result.x
+        return result.x if self(result.x) >= p_grid[i] else grid[i]
 
     def moments(self):
         """
